@@ -5,8 +5,8 @@ CLAIMED = {
  "C08": ("commit-path guard analysis over CFG+SSA (owner-consent rows), provenance slices of payouts, liveness-boundary contradiction rule",
          "every write of a name/listing and every coin move in the 14 rns handlers lies behind the owner-consent comparison of that handler's policy row on all committing paths; sale/bid payouts go to the verified owner with the recorded price; one liveness boundary. Structural necessary conditions of the property, exhaustive over handlers discovered from the service descriptor; the history-level statement is not decided.",
          "DESIGN.md §5 C08"),
- "C16": ("provenance slices (price, payer, recipient), same-value check of debit/credit, reaching-definition analysis of the stored expiry, commit-path guard analysis, error-propagation check",
-         "registration debits the signer a value depending on msg.Years and the TLD cost table, credits that same value to the constant POL account, propagates bank errors; every reaching definition of Names.Expires has a base (height, or old expiry only under a live comparison); a live name of another owner is never overwritten. Numeric '>= Y years' is not decided.",
+ "C16": ("provenance slices (price, payer, recipient), same-value check of debit/credit, reaching-definition analysis of the stored expiry, commit-path guard analysis, error-propagation check; load/write key-term agreement",
+         "registration debits the signer a value depending on msg.Years and the TLD cost table, credits that same value to the constant POL account, propagates bank errors; every reaching definition of Names.Expires has a base (height, or old expiry only under a live comparison); a live name of another owner is never overwritten. Numeric '>= Y years' is not decided. The name record tested and the name record written are keyed by the same terms.",
          "DESIGN.md §5 C16"),
  "C10": ("commit-path guard analysis with shape-recognised owner/edit-access predicates, field-write census, key provenance",
          "every Files write/delete in the eight owner-only handlers lies behind ownerPredicate(loaded record, signer) on all committing paths; PostFile behind editAccessPredicate(parent loaded by (HashParent,Account), signer); only the named field is assigned between load and store; deletes use the loaded key; root provisioning is signer-only. Hash collision resistance and crafted separators are not decided.",
@@ -20,38 +20,38 @@ CLAIMED = {
  "C14": ("commit-path guard analysis (quorum comparison, matched flag, form found), phi-web analysis of the counter and flag, must-pass-through of the form deletion, provenance of form entries",
          "proof refresh / prover removal / form deletion happen on all paths only behind count >= Param(AttestMinToPass) with direct operands and the signer-matched flag; the counter counts only complete entries; flag and Complete are set only under Eq(entry.Provider, signer); acting paths delete the loaded form; forms are built from the stored active-provider list behind the size check. Distinctness of providers / never-the-prover is not decided.",
          "DESIGN.md §5 C14"),
- "C17": ("store-effect pairing with must-pass-through path search, field-write census of the prover list, commit-path guard analysis with flag lifting",
-         "single-index file writes/deletes are always paired on all paths with the other index and identical arguments; every prover-list assignment is followed by the matching proof-record update and file save; appends happen only if absent and below the replication limit; proof records copy the file's key fields; file removal deletes listed proofs. History-level equality is not decided.",
+ "C17": ("store-effect pairing with must-pass-through path search, field-write census of the prover list, commit-path guard analysis with flag lifting; membership-key vs appended-key term equality; decode-target freshness",
+         "single-index file writes/deletes are always paired on all paths with the other index and identical arguments; every prover-list assignment is followed by the matching proof-record update and file save; appends happen only if absent and below the replication limit; proof records copy the file's key fields; file removal deletes listed proofs. History-level equality is not decided. The key tested for membership equals the key appended; records are decoded into variables local to the invocation.",
          "DESIGN.md §5 C17"),
- "C18": ("store-effect model (prefix typing over all modules), commit-path guard analysis with shape-recognised block predicate, record-field provenance, key-component analysis",
-         "one proto type per store prefix and no overlapping prefixes; the notification write is behind blockPredicate(recipient, signer)=false with To/From/Time/Contents of the stated provenance; deletion keyed by the signer's inbox; only CreateNotification writes notifications; the inbox listing iterates the key's leading component. One known finding (blocks share the notification prefix).",
+ "C18": ("store-effect model (prefix typing over all modules), commit-path guard analysis with shape-recognised block predicate, record-field provenance, key-component analysis; loop-exit check of the per-element block-list write",
+         "one proto type per store prefix and no overlapping prefixes; the notification write is behind blockPredicate(recipient, signer)=false with To/From/Time/Contents of the stated provenance; deletion keyed by the signer's inbox; only CreateNotification writes notifications; the inbox listing iterates the key's leading component. One known finding (blocks share the notification prefix). The loop writing one block entry per listed sender is left only when the list is exhausted or by a failing return.",
          "DESIGN.md §5 C18"),
- "C19": ("store-effect model over the call graph: written/exported/imported prefix sets per module, prefix typing, GenesisState field census",
-         "every record kind written by transactions or block processing is exported and imported (or is a derived index), exported prefixes are singly typed, every GenesisState field is assigned by Export and consumed by Init. Five known findings (proof records, primary names, emission history, block lists). Value-level round-trip equality is not decided.",
+ "C19": ("store-effect model over the call graph: written/exported/imported prefix sets per module, prefix typing, GenesisState field census; pagination-helper reachability and iterator-loop exit check on export paths",
+         "every record kind written by transactions or block processing is exported and imported (or is a derived index), exported prefixes are singly typed, every GenesisState field is assigned by Export and consumed by Init. Five known findings (proof records, primary names, emission history, block lists). Value-level round-trip equality is not decided. Nothing reachable from ExportGenesis uses the SDK pagination helpers and every iterator loop there ends only when the iterator is exhausted (or by panic/failing return).",
          "DESIGN.md §5 C19"),
- "C09": ("bank-effect model of the rns module account, same-value and provenance checks of amounts/recipients, must-pass-through path search (credit follows debit, delete follows payout), overwrite-or-refund guard analysis, error-propagation check",
-         "pass-through handlers debit and credit one value; a bid's escrow and recorded price are msg.Bid, keyed/paid by the signer; a bid is overwritten only after refunding the old one; cancel/accept pay the recorded price to the signer and always delete the bid; bank errors propagate. The numeric balance invariant itself is not decided.",
+ "C09": ("bank-effect model of the rns module account, same-value and provenance checks of amounts/recipients, must-pass-through path search (credit follows debit, delete follows payout), overwrite-or-refund guard analysis, error-propagation check; must-precede check of payouts before bid deletion",
+         "pass-through handlers debit and credit one value; a bid's escrow and recorded price are msg.Bid, keyed/paid by the signer; a bid is overwritten only after refunding the old one; cancel/accept pay the recorded price to the signer and always delete the bid; bank errors propagate. The numeric balance invariant itself is not decided. Every delete of a bid record is preceded on all paths by a module->account send of that record's price.",
          "DESIGN.md §5 C09"),
  "C15": ("bank/store effect census (closed world), provenance of locked/recorded/refunded amounts, commit-path guard analysis, must-pass-through of record deletion, maccPerms AST check",
          "lock = record = Param(CollateralPrice) from the signer when no provider exists; refund = loaded record's amount to the signer, always followed by deleting collateral and provider; nobody else writes collateral records or touches the escrow account; the account is registered; errors propagate. The numeric escrow invariant is not decided.",
          "DESIGN.md §5 C15"),
- "C04": ("bank-effect classification by counterparty provenance (closed set), dependence signatures of each amount on the ratio parameters, same-base check, same-value check of gauge funding, error-propagation check",
-         "in BuyStorage and the pay-once PostFile branch: the debit depends on the priced message fields, the price parameter and the price feed; every cut is computed from the debit's sources; the gauge is funded with the value it records; POL/referrer/fee-collector amounts depend on their own ratio parameter only; no other recipient; bank errors propagate. Exact prices and rounding are not decided.",
+ "C04": ("bank-effect classification by counterparty provenance (closed set), dependence signatures of each amount on the ratio parameters, same-base check, same-value check of gauge funding, error-propagation check; reaching-definition check of the payment between a cut's computation and its transfer",
+         "in BuyStorage and the pay-once PostFile branch: the debit depends on the priced message fields, the price parameter and the price feed; every cut is computed from the debit's sources; the gauge is funded with the value it records; POL/referrer/fee-collector amounts depend on their own ratio parameter only; no other recipient; bank errors propagate. Exact prices and rounding are not decided. No cut is computed from an outdated payment value.",
          "DESIGN.md §5 C04"),
  "C13": ("same-value analysis of minted/recorded/split base, SSA shape check of the recurrence, sign-guard analysis of the emission, bank instances along call paths with ratio dependence signatures, must-pass-through of the record write, key provenance",
          "minted = recorded = split base (one SSA value from the recurrence trunc(prev − decrease/blocksPerYear)); emission sign-guarded before the coin constructor; three transfers each depending on their own ratio to {fee collector, dev grants, stipend address}, no other bank call; every path after a successful mint records the emission; previous record read at height−1, written at height. Rounding remainder < 3 is not decided.",
          "DESIGN.md §5 C13"),
- "C03": ("field-write summaries + loop analysis (range-while-mutated), exhaustive CFG path enumeration of the per-proof routine with effect classes, commit-path guard analysis with shape-recognised window predicates, bank instances along call paths",
-         "no loop over a file's prover list passes the file to a callee that may rewrite the list; every path of the per-proof routine does exactly one of credit / remove / remove+burn, credit only behind proven or young, burn only behind not-proven and not-young, predicates fed height and the loaded LastProven; the single payout goes to size-tracker keys with an amount depending on tracker entry, total and the pulled coins. Shares within one base unit and Σ paid ≤ released are not decided.",
+ "C03": ("field-write summaries + loop analysis (range-while-mutated), exhaustive CFG path enumeration of the per-proof routine with effect classes, commit-path guard analysis with shape-recognised window predicates, bank instances along call paths; provenance of the burn counter write-back",
+         "no loop over a file's prover list passes the file to a callee that may rewrite the list; every path of the per-proof routine does exactly one of credit / remove / remove+burn, credit only behind proven or young, burn only behind not-proven and not-young, predicates fed height and the loaded LastProven; the single payout goes to size-tracker keys with an amount depending on tracker entry, total and the pulled coins. Shares within one base unit and Σ paid ≤ released are not decided. The provider record whose burn counter is written back is freshly read from the store in the same unit and incremented by one.",
          "DESIGN.md §5 C03"),
- "C12": ("dependence signature of the released amount, same-value check pooled=sent, commit-path guard analysis of pulls and deletes with role-typed time/balance predicates, constructor key provenance",
-         "the gauge->module amount depends on Start, End, Coins, block time and the gauge balance and is what is added to the pool; pulls only behind End>=now, End>Start, non-empty balance; deletes only behind an empty balance or a sweep (one known finding: ended gauges are deleted undrained); gauge id provenance (one known finding: id collision within a block). The linear formula, monotonicity and rounding are not decided.",
+ "C12": ("dependence signature of the released amount, same-value check pooled=sent, commit-path guard analysis of pulls and deletes with role-typed time/balance predicates, constructor key provenance; control-dependence check of the release call chain",
+         "the gauge->module amount depends on Start, End, Coins, block time and the gauge balance and is what is added to the pool; pulls only behind End>=now, End>Start, non-empty balance; deletes only behind an empty balance or a sweep (one known finding: ended gauges are deleted undrained); gauge id provenance (one known finding: id collision within a block). The linear formula, monotonicity and rounding are not decided. Every call between the block entry and the gauge iteration is control-dependent only on block height, parameters and constants (the release runs on every reward block).",
          "DESIGN.md §5 C12"),
  "C07": ("store-effect model of plan-record writers and file removers, must-pass-through path search, commit-path guard analysis of the charge, record-field provenance and subtraction-shape check, ValidateBasic lower-bound analysis",
          "file removal returns size×replication to the owner's plan on every plan-paid removal path; the charge is behind plan found / not expired / within purchased space, never on the pay-once branch, and happens on every committing plan-paid path with the right operands; size and replication are validated positive at the door; a purchase carries usage over and refuses plans below it. The history-level equality usage = Σ footprints is not decided.",
          "DESIGN.md §5 C07"),
- "C20": ("expression-DAG equivalence: canonical terms of pure string/hash builders (Sprintf split by constant format, hash typestate folded), loop-carried update term vs one-step combiner; same-value checks in the post handler",
-         "the path hasher's fold step equals the combiner applied to the accumulator and hex(SHA256(segment)), starts from the empty string and iterates Split(TrimSuffix(path,'/'),'/'); the post handler stores/returns/owner-hashes one value = combiner(HashParent, HashChild); the root uses the path hasher of a constant. Injectivity (collision resistance) is not decided.",
+ "C20": ("expression-DAG equivalence: canonical terms of pure string/hash builders (Sprintf split by constant format, hash typestate folded), loop-carried update term vs one-step combiner; same-value checks in the post handler; term check of the client-side path splitters (slice bounds kept)",
+         "the path hasher's fold step equals the combiner applied to the accumulator and hex(SHA256(segment)), starts from the empty string and iterates Split(TrimSuffix(path,'/'),'/'); the post handler stores/returns/owner-hashes one value = combiner(HashParent, HashChild); the root uses the path hasher of a constant. Injectivity (collision resistance) is not decided. Client-side splitters (string -> parent address, child hash) use only segment-preserving primitives and cut the hasher's own segmentation into segments[:n-1] / segments[n-1], or delegate to a checked splitter.",
          "DESIGN.md §5 C20"),
  "C02": ("expression-DAG equivalence of the two leaf encoders and tree-hash/salt arguments; guard analysis of the challenge draw; parameter-validator lower-bound analysis; commit-path guard analysis of removal/burn",
          "builder and verifier hash the same leaf term with the same tree hash and salting; every challenge draw is behind n>0 with n derived from FileSize and a validated-positive chunk-size parameter; removal and burn happen only on the miss branch. The proof-window clause over all schedules is NOT decided (schedule arithmetic).",
